@@ -390,6 +390,9 @@ void adapter_exec(Ev *ev)
         }
         memset(&T, 0, sizeof T);
         T.area = areas; T.entry = entries;
+        /* the macro-built entry list is a static object of this process: what an earlier script left in its touched marks is not part of
+         * the description (register_init does not promise to clear them, and no property says it would) - start as a fresh image does */
+        for (int j = 0; j < nr; j++) register_untouch(&T, (RegisterHandle)j);
         register_make_bigendian(&T, be != 0);
         have = 1;
         in_init = 1;
